@@ -241,3 +241,51 @@ theorem skipTo_progress (kws : List Str) (start : Nat) (l : Str) (r : List Str) 
   · have := skipTo_no_ge kws start r (n + 1); omega
 
 end Proofs.File
+
+namespace Proofs.File
+open Py Model Model.Listing
+
+/-! ### skipping a table leaves the file where reading it would -/
+
+/-- reading the rows of a table consumes one line per entry of `skiplines` plus the skipped lines -/
+theorem readRowsL_rest (kp : List Int) (nc : Nat) (np : List (Option Int)) (skips : List Nat) (rest : List Str) (t t' : Table)
+    (rest' : List Str) (h : readRowsL kp nc np skips rest t = .ok (t', rest')) :
+    rest' = rest.drop (skips.length + skips.sum) := by
+  induction skips generalizing rest t with
+  | nil => simp only [readRowsL] at h; injection h with h; injection h with _ h2; simp [← h2]
+  | cons k more ih =>
+    simp only [readRowsL] at h
+    split at h
+    · cases h
+    · split at h
+      · cases h
+      · split at h
+        · cases h
+        · have := ih _ _ h
+          rw [this, List.drop_drop, List.drop_drop]
+          congr 1
+          simp only [List.length_cons, List.sum_cons]; omega
+
+/-- `skiplines(n)` on the cursor: `n` lines further (or at end of file) -/
+theorem skiplines_pos (n : Nat) (env : Rd) (c : Cur) :
+    ∃ c', Cu.skiplines n env c = .ok ((), c') ∧ c'.pos.rest = c.pos.rest.drop n ∧ c'.index = c.index := by
+  induction n generalizing c with
+  | zero => exact ⟨c, rfl, by simp, rfl⟩
+  | succ k ih =>
+    cases hr : c.pos.rest with
+    | nil =>
+      obtain ⟨c', h1, h2, h3⟩ := ih c
+      refine ⟨c', ?_, ?_, h3⟩
+      · simp only [Cu.skiplines, bind, ReaderT.bind, StateT.bind, Cu.readline, get, getThe, MonadStateOf.get, liftM, monadLift,
+          MonadLift.monadLift, StateT.get, ReaderT.pure, StateT.pure, pure, Except.bind, Except.pure, hr]
+        simpa using h1
+      · rw [h2, hr]; simp
+    | cons l r =>
+      obtain ⟨c', h1, h2, h3⟩ := ih { c with pos := ⟨c.pos.no + 1, r⟩ }
+      refine ⟨c', ?_, ?_, by simpa using h3⟩
+      · simp only [Cu.skiplines, bind, ReaderT.bind, StateT.bind, Cu.readline, get, getThe, MonadStateOf.get, liftM, monadLift,
+          MonadLift.monadLift, StateT.get, ReaderT.pure, StateT.pure, pure, Except.bind, Except.pure, hr, set, StateT.set]
+        simpa using h1
+      · rw [h2]; simp
+
+end Proofs.File
